@@ -130,6 +130,24 @@ def enumerate_graphs(max_groups, max_tasks, max_streams):
                                             yield dict(spec, depths=list(depths))
 
 
+def enumerate_chain_graphs():
+    """Four groups: a chain G0 > G1 > G2 and a separate root G3.  A task shared by the deepest fragment and the
+    root G3 runs (and may fail) while G0 and G1 are not released yet: the publisher must keep the failure
+    until an *announced* ancestor completes (two levels up)."""
+    parents = [None, 0, 1, None]
+    opts = [(o, g) for o in ("ok", "fail") for g in (False, True)]
+    for ga in ((2, 3), (1, 3), (2,), (3,)):
+        for oa in opts:
+            for gb in ((0,), (1,), (0, 3)):
+                for ob in opts:
+                    for extra in (None, (1,), (2,)):
+                        tasks = [{"groups": list(ga), "outcome": oa[0], "gated": oa[1]},
+                                 {"groups": list(gb), "outcome": ob[0], "gated": ob[1]}]
+                        if extra:
+                            tasks.append({"groups": list(extra), "outcome": "ok", "gated": True})
+                        yield {"parents": parents, "tasks": tasks, "streams": []}
+
+
 def run_graph(spec, schedule):
     """Build the work for spec, drive publisher + work queue under the schedule, monitor payloads."""
     from graphql.execution.incremental.computation import Computation
@@ -312,7 +330,9 @@ def _work_queue(max_groups, max_tasks, max_streams, max_orders, stride):
     def fn(ctx, shard, nshards):
         total = 0
         all_exhausted = True
-        for i, spec in enumerate(enumerate_graphs(max_groups, max_tasks, max_streams)):
+        graphs = enumerate_chain_graphs() if max_groups == "chain" else enumerate_graphs(max_groups, max_tasks,
+                                                                                         max_streams)
+        for i, spec in enumerate(graphs):
             if (i // stride) % nshards != shard or i % stride:
                 continue
             if ctx.out_of_time():
@@ -346,12 +366,15 @@ def subchecks(tier):
                 # says how many graphs were enumerated completely)
                 Sub("work_queue", _work_queue(2, 2, 1, 600, 1), shards=6, weight=1),
                 # a slice of the 3-group graphs (forests with a grandchild / two children), no streams
-                Sub("work_queue_3g", _work_queue(3, 2, 0, 300, 3), shards=2, weight=1)]
+                Sub("work_queue_3g", _work_queue(3, 2, 0, 300, 3), shards=2, weight=1),
+                # 576 graphs with a chain of three fragments and a separate root, every order
+                Sub("work_queue_chain", _work_queue("chain", 3, 0, 600, 1), shards=1, weight=1)]
     return [Sub("end_to_end", _end_to_end(4000, 12), shards=16, weight=2),
             # all 139 376 graphs with <= 3 groups, <= 2 tasks, <= 1 stream (cap 400 orders per graph) and every
             # second of the 148 832 graphs with <= 2 groups, <= 2 tasks, <= 2 streams; both stop at the budget
             Sub("work_queue", _work_queue(3, 2, 1, 400, 1), shards=16, weight=2),
-            Sub("work_queue_2s", _work_queue(2, 2, 2, 200, 2), shards=16, weight=1)]
+            Sub("work_queue_2s", _work_queue(2, 2, 2, 200, 2), shards=16, weight=1),
+            Sub("work_queue_chain", _work_queue("chain", 3, 0, 5000, 1), shards=4, weight=1)]
 
 
 def replay(case):
